@@ -445,9 +445,17 @@ def explore(fn, max_paths=20000, roots=None, catch=()):
 # values
 
 def _frac(x):
-    f = fractions.Fraction(float(x))
+    """A concrete float entering the real-arithmetic model: the nearby rational it stands for.
+    0.0005 -> 1/2000; the result of a concrete float computation such as 9*(35*x*x-30*x+3)/8 at
+    x = 1/3 (-3.5000000000000004) -> -7/2.  Floats are reals in this model, so rounding noise (1e-12 relative) of a
+    concrete float computation around a small-denominator rational is discarded; anything else is taken exactly."""
+    x = float(x)
+    f = fractions.Fraction(x)
     g = f.limit_denominator(10 ** 12)
-    if float(g) == float(x):
+    if float(g) == x:
+        return g
+    g = f.limit_denominator(10 ** 6)
+    if abs(float(g) - x) <= 1e-12 * max(1.0, abs(x)):
         return g
     return f
 
